@@ -1724,6 +1724,48 @@ def r_floatbuf(E):
     return res
 
 
+MULTIPLICITY_LISTS = {"uj_steps": "a journey may go through the same step twice", "jobs": "a job listed twice in a step runs twice"}
+
+
+@rule("R-DUPKEY")
+def r_dupkey(E):
+    pm = E.pm
+    res = RuleResult("R-DUPKEY", "the members of a list link in which multiplicity counts (the steps of a journey, the jobs "
+                                 "of a step) are not made the keys of a dict that is then walked to add one term per entry: "
+                                 "a member listed twice is one key, so its second occurrence contributes nothing")
+    from ..astutil import fully_expanded, nodes_through_helpers
+    for mod, (rel, tree, src) in sorted(pm.modules.items()):
+        if not (rel.startswith("efootprint/core") or rel.startswith("efootprint/builders/services")):
+            continue
+        for cls in [c for c in tree.body if isinstance(c, ast.ClassDef)]:
+            for fn in [f for f in cls.body if isinstance(f, ast.FunctionDef)]:
+                res.instances += 1
+                finder = pm.helper_finder(cls.name) if cls.name in pm.classes else None
+                for n in nodes_through_helpers(fn, finder, depth=2):
+                    keys_from = None
+                    if isinstance(n, ast.Call) and isinstance(n.func, ast.Name) and n.func.id == "dict" and len(n.args) == 1 \
+                            and isinstance(n.args[0], ast.Call) and norm(n.args[0].func) == "zip" and n.args[0].args:
+                        keys_from = n.args[0].args[0]
+                    elif isinstance(n, ast.DictComp) and len(n.generators) == 1 and isinstance(n.generators[0].target, ast.Name) \
+                            and norm(n.key) == n.generators[0].target.id and not n.generators[0].ifs:
+                        keys_from = n.generators[0].iter
+                    if keys_from is None:
+                        continue
+                    host = n
+                    while host is not None and not isinstance(host, ast.FunctionDef):
+                        host = getattr(host, "_parent", None)
+                    t = norm(fully_expanded(keys_from, host) if host is not None else keys_from)
+                    attr = t.split(".")[-1]
+                    if attr in MULTIPLICITY_LISTS and "." in t and not t.startswith(("set(", "list(set(")):
+                        res.findings.append(Finding(
+                            "R-DUPKEY", f"{cls.name}.{fn.name} :: dict keyed by the members of {t[:50]}",
+                            f"{cls.name}.{fn.name} builds `{norm(n)[:70]}`: its keys are the members of `{t[:50]}`, a list in "
+                            f"which multiplicity counts ({MULTIPLICITY_LISTS[attr]}) — a member listed twice is a single key, "
+                            f"so what is computed per entry counts it once", rel, n.lineno, f"{cls.name}.{fn.name}"))
+    res.floor = 100
+    return res
+
+
 @rule("R-ONESIDED")
 def r_onesided(E):
     pm = E.pm
